@@ -42,6 +42,11 @@ class _Centroid:
         """Merge two centroids into one."""
         total = self.count + other.count
         new_mean = (self.mean * self.count + other.mean * other.count) / total
+        # Floating-point rounding can push the weighted mean an ulp outside the
+        # two means (e.g. merging identical values); keep it between them so
+        # that centroid means stay within [min, max] and sorted.
+        lo, hi = (self.mean, other.mean) if self.mean <= other.mean else (other.mean, self.mean)
+        new_mean = min(max(new_mean, lo), hi)
         return _Centroid(mean=new_mean, count=total)
 
 
